@@ -557,94 +557,35 @@ macro_rules! impl_nio_read_iovec {
                 let start_time = $crate::common::now();
                 let mut left_time = $crate::syscall::recv_time_limit($fd);
                 let vec = unsafe {
-                    Vec::from_raw_parts(
-                        $iov.cast_mut(),
-                        $iovcnt.try_into().expect("overflow"),
-                        $iovcnt.try_into().expect("overflow"),
-                    )
+                    std::slice::from_raw_parts($iov, $iovcnt.try_into().expect("overflow"))
                 };
-                let mut length = 0;
-                let mut received = 0usize;
                 // a request without any bytes transfers nothing and returns 0
                 let mut r = if vec.iter().all(|i| i.iov_len == 0) { 0 } else { -1 };
-                let mut index = 0;
-                for iovec in &vec {
-                    let stage = length;
-                    let mut offset = received.saturating_sub(stage);
-                    length += iovec.iov_len;
-                    if received > length {
-                        index += 1;
-                        continue;
+                // like the native call, return as soon as some bytes have arrived
+                while r == -1 && left_time > 0 {
+                    r = self.inner.$syscall(fn_ptr, $fd, $iov, $iovcnt, $($arg, )*);
+                    if r != -1 {
+                        $crate::syscall::reset_errno();
+                        break;
                     }
-                    let mut arg = Vec::new();
-                    for i in vec.iter().skip(index) {
-                        arg.push(*i);
-                    }
-                    while received < length && left_time > 0 {
-                        // Assuming iov_len is 4, but only 1 is read, at this point we should continue trying to fill the current iovec
-                        if 0 != offset {
-                            arg[0] = libc::iovec {
-                                iov_base: (arg[0].iov_base as usize + offset) as *mut std::ffi::c_void,
-                                iov_len: arg[0].iov_len - offset,
-                            };
-                        }
-                        r = self.inner.$syscall(
-                            fn_ptr,
+                    let error_kind = std::io::Error::last_os_error().kind();
+                    if error_kind == std::io::ErrorKind::WouldBlock {
+                        //wait read event
+                        left_time = start_time
+                            .saturating_add($crate::syscall::recv_time_limit($fd))
+                            .saturating_sub($crate::common::now());
+                        let wait_time = std::time::Duration::from_nanos(left_time)
+                            .min($crate::common::constants::SLICE);
+                        if $crate::net::EventLoops::wait_read_event(
                             $fd,
-                            arg.as_ptr(),
-                            std::ffi::c_int::try_from(arg.len()).unwrap_or_else(|_| {
-                                panic!("{} iovcnt overflow", $crate::common::constants::SyscallName::$syscall)
-                            }),
-                            $($arg, )*
-                        );
-                        if r == 0 {
-                            r = received.try_into().expect("received overflow");
-                            std::mem::forget(vec);
-                            if blocking {
-                                $crate::syscall::set_blocking($fd);
-                            }
-                            return r;
-                        } else if r != -1 {
-                            $crate::syscall::reset_errno();
-                            received += libc::size_t::try_from(r).expect("r overflow");
-                            if received >= length {
-                                r = received.try_into().expect("received overflow");
-                                break;
-                            }
-                            offset = received.saturating_sub(stage);
+                            Some(wait_time)
+                        ).is_err() {
+                            break;
                         }
-                        let error_kind = std::io::Error::last_os_error().kind();
-                        if error_kind == std::io::ErrorKind::WouldBlock {
-                            //wait read event
-                            left_time = start_time
-                                .saturating_add($crate::syscall::recv_time_limit($fd))
-                                .saturating_sub($crate::common::now());
-                            let wait_time = std::time::Duration::from_nanos(left_time)
-                                .min($crate::common::constants::SLICE);
-                            if $crate::net::EventLoops::wait_read_event(
-                                $fd,
-                                Some(wait_time)
-                            ).is_err() {
-                                r = received.try_into().expect("received overflow");
-                                std::mem::forget(vec);
-                                if blocking {
-                                    $crate::syscall::set_blocking($fd);
-                                }
-                                return r;
-                            }
-                        } else if error_kind != std::io::ErrorKind::Interrupted {
-                            std::mem::forget(vec);
-                            if blocking {
-                                $crate::syscall::set_blocking($fd);
-                            }
-                            return r;
-                        }
-                    }
-                    if received >= length {
-                        index += 1;
+                    } else if error_kind != std::io::ErrorKind::Interrupted {
+                        break;
                     }
                 }
-                std::mem::forget(vec);
                 if blocking {
                     $crate::syscall::set_blocking($fd);
                 }
@@ -784,88 +725,53 @@ macro_rules! impl_nio_write_iovec {
                 let start_time = $crate::common::now();
                 let mut left_time = $crate::syscall::send_time_limit($fd);
                 let vec = unsafe {
-                    Vec::from_raw_parts(
-                        $iov.cast_mut(),
-                        $iovcnt.try_into().expect("overflow"),
-                        $iovcnt.try_into().expect("overflow"),
-                    )
+                    std::slice::from_raw_parts($iov, $iovcnt.try_into().expect("overflow"))
                 };
-                let mut length = 0;
+                let total = vec.iter().map(|i| i.iov_len).sum::<usize>();
                 let mut sent = 0usize;
                 // a request without any bytes transfers nothing and returns 0
-                let mut r = if vec.iter().all(|i| i.iov_len == 0) { 0 } else { -1 };
-                let mut index = 0;
-                for iovec in &vec {
-                    let stage = length;
-                    let mut offset = sent.saturating_sub(stage);
-                    length += iovec.iov_len;
-                    if sent > length {
-                        index += 1;
+                let mut r = if total == 0 { 0 } else { -1 };
+                while sent < total && left_time > 0 {
+                    // hand down only what has not been sent yet
+                    let arg = $crate::syscall::remaining_iovec(vec, sent);
+                    r = self.inner.$syscall(
+                        fn_ptr,
+                        $fd,
+                        arg.as_ptr(),
+                        std::ffi::c_int::try_from(arg.len()).unwrap_or_else(|_| {
+                            panic!("{} iovcnt overflow", $crate::common::constants::SyscallName::$syscall)
+                        }),
+                        $($arg, )*
+                    );
+                    if r != -1 {
+                        $crate::syscall::reset_errno();
+                        sent += libc::size_t::try_from(r).expect("r overflow");
                         continue;
                     }
-                    let mut arg = Vec::new();
-                    for i in vec.iter().skip(index) {
-                        arg.push(*i);
-                    }
-                    while sent < length && left_time > 0 {
-                        if 0 != offset {
-                            arg[0] = libc::iovec {
-                                iov_base: (arg[0].iov_base as usize + offset) as *mut std::ffi::c_void,
-                                iov_len: arg[0].iov_len - offset,
-                            };
-                        }
-                        r = self.inner.$syscall(
-                            fn_ptr,
+                    let error_kind = std::io::Error::last_os_error().kind();
+                    if error_kind == std::io::ErrorKind::WouldBlock {
+                        //wait write event
+                        left_time = start_time
+                            .saturating_add($crate::syscall::send_time_limit($fd))
+                            .saturating_sub($crate::common::now());
+                        let wait_time = std::time::Duration::from_nanos(left_time)
+                            .min($crate::common::constants::SLICE);
+                        if $crate::net::EventLoops::wait_write_event(
                             $fd,
-                            arg.as_ptr(),
-                            std::ffi::c_int::try_from(arg.len()).unwrap_or_else(|_| {
-                                panic!("{} iovcnt overflow", $crate::common::constants::SyscallName::$syscall)
-                            }),
-                            $($arg, )*
-                        );
-                        if r != -1 {
-                            $crate::syscall::reset_errno();
-                            sent += libc::size_t::try_from(r).expect("r overflow");
-                            if sent >= length {
-                                r = sent.try_into().expect("sent overflow");
-                                break;
-                            }
-                            offset = sent.saturating_sub(stage);
+                            Some(wait_time)
+                        ).is_err() {
+                            break;
                         }
-                        let error_kind = std::io::Error::last_os_error().kind();
-                        if error_kind == std::io::ErrorKind::WouldBlock {
-                            //wait write event
-                            left_time = start_time
-                                .saturating_add($crate::syscall::send_time_limit($fd))
-                                .saturating_sub($crate::common::now());
-                            let wait_time = std::time::Duration::from_nanos(left_time)
-                                .min($crate::common::constants::SLICE);
-                            if $crate::net::EventLoops::wait_write_event(
-                                $fd,
-                                Some(wait_time)
-                            ).is_err() {
-                                r = sent.try_into().expect("sent overflow");
-                                std::mem::forget(vec);
-                                if blocking {
-                                    $crate::syscall::set_blocking($fd);
-                                }
-                                return r;
-                            }
-                        } else if error_kind != std::io::ErrorKind::Interrupted {
-                            std::mem::forget(vec);
-                            if blocking {
-                                $crate::syscall::set_blocking($fd);
-                            }
-                            return r;
-                        }
-                    }
-                    if sent >= length {
-                        index += 1;
+                    } else if error_kind != std::io::ErrorKind::Interrupted {
+                        break;
                     }
                 }
-                std::mem::forget(vec);
                 if blocking {
                     $crate::syscall::set_blocking($fd);
+                }
+                if sent > 0 {
+                    // report what was moved, also when a later call failed
+                    r = sent.try_into().expect("sent overflow");
                 }
                 r
             }
@@ -984,6 +890,24 @@ extern "C" {
     )]
     #[cfg_attr(target_os = "haiku", link_name = "_errnop")]
     fn errno_location() -> *mut c_int;
+}
+
+/// The part of `iov` that is left after `done` bytes have been transferred.
+#[must_use]
+pub fn remaining_iovec(iov: &[libc::iovec], mut done: usize) -> Vec<libc::iovec> {
+    let mut rest = Vec::with_capacity(iov.len());
+    for i in iov {
+        if done >= i.iov_len {
+            done -= i.iov_len;
+            continue;
+        }
+        rest.push(libc::iovec {
+            iov_base: (i.iov_base as usize + done) as *mut std::ffi::c_void,
+            iov_len: i.iov_len - done,
+        });
+        done = 0;
+    }
+    rest
 }
 
 pub extern "C" fn reset_errno() {
